@@ -207,9 +207,25 @@ def run_play_program(prog, groups):
     old = s.latency
     s.latency = prog['latency']
 
+    objs = {}
+
     def one(step):
-        d = to_event_dict(step['event'], groups)
         how = step['how']
+        if how == 'object':
+            # history on one event object: create / edit in place / copy + edit
+            k = step['obj']
+            if step['op'] == 'new':
+                objs[k] = event(to_event_dict(step['event'], groups))
+            else:
+                if step['op'] == 'copy':
+                    objs[k] = objs[step['src']].copy()
+                e = objs[k]
+                for key in step['del']:
+                    e.pop(key, None)
+                e.update(to_event_dict(step['set'], groups))
+            objs[k].play()
+            return
+        d = to_event_dict(step['event'], groups)
         if how == 'event.play':
             event(d).play()
         elif how == 'play(dict)':
@@ -327,8 +343,10 @@ def expect_program(prog, times, info, groups):
     ex = Expect()
     ex.group_id = groups['id']
     for step, t in zip(prog['steps'], times):
-        ex.notes.append(expect_note(step['event'], t, prog['latency'], info,
-                                    groups))
+        n = expect_note(step['event'], t, prog['latency'], info, groups)
+        n['prev_tags'] = step.get('prev_tags', [])
+        n['op'] = step.get('op')
+        ex.notes.append(n)
     return ex
 
 
@@ -406,7 +424,32 @@ def compare(ex, cap, acc, mon, offgrid=False):
                         by_tag.setdefault(v, []).append(r)
     ids = {}
     seen_ids = set()
+    # an event object that is played again: when no /s_new carries the tag the
+    # event defines now but a second /s_new with a tag of one of its earlier
+    # plays exists, the replay sent the controls of an earlier play
+    stale = {}
     for n in ex.notes:
+        if by_tag.get(n['tag']) or not n.get('prev_tags'):
+            continue
+        for pt in reversed(n['prev_tags']):
+            extra = [r for r in by_tag.get(pt, [])[1:] if not r.get('stale')]
+            if extra:
+                r = extra[0]
+                r['stale'] = r['used'] = True
+                stale[n['tag']] = r
+                by_tag[pt].remove(r)
+                for g in rows:      # its gate-off, if any
+                    if g['addr'] == '/n_set' and g['args'][:1] == \
+                            [r['args'][1]] and g['args'][1:] == ['gate', 0]:
+                        g['used'] = True
+                break
+    for n in ex.notes:
+        if n['tag'] in stale:
+            r = stale[n['tag']]
+            bad.append(('replayed-event-sends-controls-of-earlier-play',
+                        {'tag_now': n['tag'], 'op': n.get('op'),
+                         'sent': r['args'], 't': r['t']}))
+            continue
         cand = by_tag.get(n['tag'], [])
         if not cand:
             bad.append((f"missing-s_new/{n['kind']}", {'tag': n['tag']}))
@@ -416,6 +459,9 @@ def compare(ex, cap, acc, mon, offgrid=False):
         r = cand[0]
         for c in cand:
             c['used'] = True
+        if n.get('prev_tags'):
+            acc.count(f"{mon}_replay_s_new_checked")
+            acc.count(f"{mon}_replay_{n.get('op')}")
         acc.count(f'{mon}_s_new_checked')
         a = r['args']
         if not (ttol(r['t'], n['time']) and ttol(r['tl'], n['time'])):
